@@ -37,12 +37,24 @@ finally:
     sh(f"git -C /repo worktree remove --force {wt}")
 out = f"/verif/seeded/{name}"
 os.makedirs(out, exist_ok=True)
-shutil.copy(patch, out + "/patch.diff"); shutil.copy(demo, out + "/demo.py")
+if os.path.realpath(src) != os.path.realpath(out):
+    shutil.copy(patch, out + "/patch.diff"); shutil.copy(demo, out + "/demo.py")
 meta = {}
 try: meta = json.load(open(os.path.join(src, "meta.json")))
 except Exception as e: meta = {"agent_meta_error": repr(e)}
+prev = None
+if "agent_meta" in meta and "verified_by_me" in meta:      # re-verification of a filed change
+    prev = meta
+    meta = meta["agent_meta"]
+res["repo_head"] = sh("git -C /repo log --format=%h -1").stdout.strip()
 meta_out = {"breaks_property": pid, "agent_meta": meta, "verified_by_me": res,
             "how_verified": "scratch worktree of /repo HEAD under /tmp: demo.py without patch (expect exit 0), git apply patch.diff, demo.py (expect exit 1), full pytest suite with the patch, ./check <ID> --tier quick with VP_REPO_SRC pointing at the patched worktree; worktree removed afterwards"}
+if prev is not None:
+    hist = prev.get("earlier_verifications", [])
+    hist.append(prev["verified_by_me"])
+    meta_out["earlier_verifications"] = hist[-4:]
+    for k in ("note",):
+        if k in prev: meta_out[k] = prev[k]
 json.dump(meta_out, open(out + "/meta.json", "w"), indent=1)
 ok = res.get("demo_without_patch_exit") == 0 and res.get("demo_with_patch_exit") not in (0, None) and res.get("suite_passes")
 det = {p: v["exit"] for p, v in res.get("checks", {}).items()}
